@@ -21,7 +21,8 @@ Args:
 Returns:
     a float distance norm for the weights
 """
-  from numpy import asarray, seterr, inf, abs, max, sum, expand_dims
+  from numpy import asarray, errstate, inf, abs, max, sum, expand_dims
+  from numpy import isfinite, where
   weights = asarray(weights, dtype=float)
   if not p:
     w = sum(weights != 0.0, dtype=float, axis=axis) # number of nonzero elements
@@ -30,12 +31,10 @@ Returns:
   elif p == -inf: #XXX: special case, as p in [0,inf]
     w = min(abs(weights), axis=axis)
   else:
-    orig = seterr(over='raise', invalid='raise')
-    try:
+    with errstate(over='ignore', invalid='ignore'):
       w = sum(abs(weights**p), axis=axis)**(1./p)
-    except FloatingPointError: # use the infinity norm
-      w = max(abs(weights), axis=axis)
-    seterr(**orig)
+    # use the infinity norm (only) where the p-norm overflowed
+    w = where(isfinite(w), w, max(abs(weights), axis=axis))[()]
   return w if (axis is None or not w.shape) else expand_dims(w, axis=axis)
 
 def absolute_distance(x, xp=None, pair=False, dmin=0):
@@ -178,16 +177,13 @@ Notes:
     most common usage has ``pair=False`` and ``axis=0``, or
     pairwise distance with ``pair=True`` and ``axis=1``
 """
-  from numpy import seterr, inf
+  from numpy import errstate, inf, isfinite, where
   if p == inf: return chebyshev(x,xp,pair=pair,dmin=dmin,axis=axis)
   d = absolute_distance(x,xp,pair=pair,dmin=dmin).astype(float)
-  orig = seterr(over='raise', invalid='raise')
-  try:
-      d = (d**p).sum(axis=axis)**(1./p)
-  except FloatingPointError: # use the infinity norm
-      d = d.max(axis=axis).astype(float)
-  seterr(**orig)
-  return d
+  with errstate(over='ignore', invalid='ignore'):
+      dp = (d**p).sum(axis=axis)**(1./p)
+  # use the infinity norm (only) where the p-norm overflowed
+  return where(isfinite(dp), dp, d.max(axis=axis))[()]
 
 
 def euclidean(x,xp=None, pair=False, dmin=0, axis=None):
